@@ -168,7 +168,11 @@ def api_level(ctx, thorough):
     fixed = [dict(inst=fullstack.INST, version_answers=[None], horizon=8000),                # silent from the first heartbeat
              dict(inst=fullstack.INST, version_answers=[None], horizon=8000, chatter=301),   # ... while status traffic goes on
              dict(inst=fullstack.INST, version_answers=[1, None], horizon=8000),             # silent after a response
-             dict(inst=fullstack.INST, version_answers=[239], horizon=2400 * 5 + 100)]       # always answered just within 30 s
+             dict(inst=fullstack.INST, version_answers=[239], horizon=2400 * 5 + 100),       # always answered just within 30 s
+             # the console is unreachable for longer than init() waits: the handshake completes later, in the background -
+             # "once initialised" the heartbeat must run all the same
+             dict(inst=fullstack.INST, refuse_until=56, version_answers=[1, None], horizon=8000),
+             dict(inst=fullstack.INST, refuse_until=200, version_answers=[None], horizon=8000, chatter=301)]
     for gen in (4, 5):
         for sc in fixed + [_api_scenario(rng) for _ in range(n)]:
             cases.append((gen, sc))
@@ -177,6 +181,9 @@ def api_level(ctx, thorough):
     for gen, sc in cases:
         b = fullstack.run(gen, sc)
         evs = b["hb_events"]
+        if "initialised=True" in b["view"] and not any(e[0] == "start" for e in evs):
+            # the object reports initialised, yet the heartbeat manager was never started: a heartbeat is due at once
+            evs = [("conn", 1, 0), ("start", b.get("init_done_at") or 0)] + evs
         runs.append(evs)
         lines.append("hbmon 2400 2640 %s" % _api_fmt(evs))
     verdicts = ctx.oracle(lines)
